@@ -1,27 +1,136 @@
-(** C33 — model of `match`: acceptance by the checker and the run-time arm tests.  (first version: refined below) *)
+(** C33 — model of `match`: acceptance by the checker and the arm tests at run time.
+
+    Transcribed from
+      crates/erg_parser/desugar.rs                 a literal pattern `1 -> e` is `%p: {1} -> e` with the guard `%p == 1`,
+                                                   a type pattern `_: T -> e` has the guard `T contains %p`
+      crates/erg_compiler/context/inquire.rs       get_match_call_t: the pattern types are folded with Context::union and the
+                                                   scrutinee type must be a subtype of the result (sub_unify)
+      crates/erg_compiler/context/compare.rs       Context::{union, union_refinement, union_pred, union_add, simple_union}
+      crates/erg_compiler/codegen.rs               emit_match_instr / emit_match_pattern: the arms are tried in order; the
+                                                   guard of the LAST arm is evaluated and dropped (the last arm always runs)
+      crates/erg_compiler/lib/core/_erg_contains_operator.py, _erg_nat.py, _erg_bool.py, _erg_range.py
+    Not modelled: tuple / record / list patterns, guards, bindings used in the arm bodies. *)
 From Coq Require Import ZArith List Bool Arith.
 From ErgV Require Import gen.Classes Types.Model Types.Spec.
 Import ListNotations.
 Open Scope Z_scope.
 
 Inductive arm :=
-| ALit (l : lit)        (* literal pattern `1 -> ...` == `_: {1}` *)
+| ALit (l : lit)        (* literal pattern `1 -> ...` *)
 | ATy (t : ty)          (* type pattern `_: T -> ...` *)
-| AWild.                (* `_ -> ...` *)
+| AWild.                (* `_ -> ...` (the parameter type is Obj) *)
 
 Definition arm_ty (a : arm) : ty :=
   match a with ALit l => enum_ty [l] | ATy t => t | AWild => TObj end.
 
-Definition union_arms (arms : list arm) : ty := fold_left or_ty (map arm_ty arms) TNever.
+(* ------------------------------------------------------------------ Context::union on the fragment *)
+(* simple_union: the larger one if the two are related, otherwise `lhs or rhs` *)
+Definition simple_union (a b : ty) : ty := if sub b a then a else if sub a b then b else or_ty a b.
 
-Definition accepted (t : ty) (arms : list arm) : bool := sub t (union_arms arms).
+(* union_pred: the weaker predicate if one implies the other, otherwise `lhs | rhs` (representable for two enums) *)
+Definition union_pred (p q : rpred) : option rpred :=
+  if is_super_pred p q then Some p
+  else if is_super_pred q p then Some q
+  else match p, q with
+       | PEnum a, PEnum b => Some (PEnum (a ++ filter (fun x => negb (existsb (lit_eqb x) a)) b))
+       | _, _ => None
+       end.
 
-Definition arm_matches (a : arm) (v : value) : bool :=
-  match a with ALit l => lit_matches l v | ATy t => den t v | AWild => true end.
+Definition is_plain (t : ty) : bool := match t with TNever | TObj | TMono _ => true | _ => false end.
 
-Fixpoint first_match_from (i : Z) (arms : list arm) (v : value) : Z :=
+(* union_add(union, elem) *)
+Definition union_add (l : list ty) (e : ty) : ty :=
+  if existsb (fun t => sub e t) l then TOr l else or_ty (TOr l) e.
+
+(* None: the result is outside the modelled fragment (an intersection, a container, a predicate that is not an enum or an
+   interval): the check does not generate such matches *)
+Definition union_ty (a b : ty) : option ty :=
+  if ty_eqb a b then Some a
+  else match a, b with
+       | TRef ab ap, TRef bb bp =>
+         (* union_refinement: union of the two classes, union_pred of the predicates; modelled for the same class *)
+         if ty_eqb ab bb && is_plain ab && is_plain bb
+         then match union_pred ap bp with Some p => Some (TRef ab p) | None => None end
+         else None
+       | _, _ =>
+         (* (Refinement(refine), other) if other is the class that is refined: union(other, refine.t) == other *)
+         match a, b with
+         | TRef (TMono c) _, TMono d => if c =? d then Some b else Some (simple_union a b)
+         | TMono d, TRef (TMono c) _ => if c =? d then Some a else Some (simple_union a b)
+         | TAnd _, _ | _, TAnd _ | TList _ _, _ | _, TList _ _ | TNot _, _ | _, TNot _ | TPoly _, _ | _, TPoly _ => None
+         | o, TOr l => Some (union_add l o)          (* (other, or @ Or(_)) *)
+         | TOr l, o => Some (union_add l o)          (* (or @ Or(_), other) *)
+         | t, TNever => Some t
+         | TNever, t => Some t
+         | _, _ => Some (simple_union a b)
+         end
+       end.
+
+(* union_pat_t: Never, then union(union_pat_t, arm type) for every arm in order *)
+Fixpoint union_arms_from (acc : ty) (arms : list arm) : option ty :=
+  match arms with
+  | [] => Some acc
+  | a :: r => match union_ty acc (arm_ty a) with Some u => union_arms_from u r | None => None end
+  end.
+Definition union_arms (arms : list arm) : option ty := union_arms_from TNever arms.
+
+(* the match is accepted iff the scrutinee type is a subtype of the union of the pattern types *)
+Definition accepted (t : ty) (arms : list arm) : option bool :=
+  match union_arms arms with Some u => Some (sub t u) | None => None end.
+
+(* ------------------------------------------------------------------ run time *)
+(* contains_operator(C, v) for a builtin class C and a literal value v: isinstance (Bool < Nat < Int), then C.try_new(v) *)
+Definition rt_class (c : Z) (v : value) : bool :=
+  if c =? id_Bool then match v with VBool _ => true | _ => false end
+  else if c =? id_Nat then match v with VBool _ => true | VInt z => 0 <=? z | _ => false end
+  else if c =? id_Int then match v with VBool _ | VInt _ => true | _ => false end
+  else if c =? id_Float then match v with VFloat _ => true | _ => false end
+  else if c =? id_Str then match v with VStr _ => true | _ => false end
+  else if c =? id_NoneType then match v with VNone => true | _ => false end
+  else false.
+
+(* contains_operator(T, v) for the value of the type expression T: a class, a set `{1, 2}` (`v in set`), a Range
+   (`lo <= v <= hi`), a UnionType (any) *)
+Fixpoint rt_in (t : ty) (v : value) : bool :=
+  match t with
+  | TObj => true
+  | TMono c => rt_class c v
+  | TRef _ (PEnum ls) => existsb (fun l => lit_matches l v) ls
+  | TRef _ (PIval lo hi) => den_pred (PIval lo hi) v
+  | TOr l => (fix any (l : list ty) : bool := match l with [] => false | x :: r => rt_in x v || any r end) l
+  | _ => false
+  end.
+
+Definition rt_test (a : arm) (v : value) : bool :=
+  match a with ALit l => lit_matches l v | ATy t => rt_in t v | AWild => true end.
+
+(* the arm whose body runs: the first one whose test succeeds; the test of the last arm is not consulted *)
+Fixpoint rt_select_from (i : Z) (arms : list arm) (v : value) : Z :=
   match arms with
   | [] => -1
-  | a :: r => if arm_matches a v then i else first_match_from (i + 1) r v
+  | [_] => i
+  | a :: r => if rt_test a v then i else rt_select_from (i + 1) r v
   end.
-Definition first_match (arms : list arm) (v : value) : Z := first_match_from 0 arms v.
+Definition rt_select (arms : list arm) (v : value) : Z := rt_select_from 0 arms v.
+
+(* the property on one observation: the arm that ran matches the value *)
+Definition judge_arm (arms : list arm) (i : Z) (v : value) : bool :=
+  match nth_error arms (Z.to_nat i) with
+  | Some a => (0 <=? i) && den (arm_ty a) v
+  | None => false
+  end.
+
+(* known finding (known/C33.json): the checker reads Bool as {0, 1} (True == 1), the run-time class test does not:
+   a Bool arm is not taken for the integers 0 and 1 *)
+Fixpoint mentions_bool (t : ty) : bool :=
+  match t with
+  | TMono c => c =? id_Bool
+  | TRef b _ => mentions_bool b
+  | TOr l => (fix any (l : list ty) : bool := match l with [] => false | x :: r => mentions_bool x || any r end) l
+  | _ => false
+  end.
+Definition known_bool_int (arms : list arm) (v : value) : bool :=
+  match v with
+  | VInt z => ((z =? 0) || (z =? 1)) && existsb (fun a => match a with ATy t => mentions_bool t | _ => false end) arms
+  | _ => false
+  end.
